@@ -129,7 +129,8 @@ Record frame := mkFrame {
 }.
 
 (* head = r.readerStack, tail = the parent chain; [] = a nil readerStack *)
-Record msr := mkMsr { m_stack : list frame; m_empty : bool; m_lrem : Z }.
+(* m_elast: emptyLastOffset, the last offset of the latest record-less v2 batch (-1 = none) *)
+Record msr := mkMsr { m_stack : list frame; m_empty : bool; m_lrem : Z; m_elast : Z }.
 
 Inductive mres (A : Type) : Type :=
 | MOk (a : A) (m : msr)
@@ -149,7 +150,7 @@ Definition bind {A B} (a : M A) (f : A -> M B) : M B :=
 Notation "x <- a ;; b" := (bind a (fun x => b)) (at level 61, a at next level, right associativity).
 Notation "a ;;; b" := (bind a (fun _ => b)) (at level 61, right associativity).
 
-Definition set_stack (m : msr) (st : list frame) : msr := mkMsr st (m_empty m) (m_lrem m).
+Definition set_stack (m : msr) (st : list frame) : msr := mkMsr st (m_empty m) (m_lrem m) (m_elast m).
 Definition set_rd (f : frame) (s : rd) : frame :=
   mkFrame (fst s) (snd s) (f_base f) (f_count f) (f_hdr f).
 
@@ -168,14 +169,13 @@ Definition top : M frame :=
   fun m => match m_stack m with [] => MPanic | f :: _ => MOk f m end.
 Definition upd_top (g : frame -> frame) : M unit :=
   fun m => match m_stack m with [] => MPanic | f :: ps => MOk tt (set_stack m (g f :: ps)) end.
-Definition set_lrem (v : Z) : M unit := fun m => MOk tt (mkMsr (m_stack m) (m_empty m) v).
+Definition set_lrem (v : Z) : M unit := fun m => MOk tt (mkMsr (m_stack m) (m_empty m) v (m_elast m)).
+Definition set_elast (v : Z) : M unit := fun m => MOk tt (mkMsr (m_stack m) (m_empty m) (m_lrem m) v).
 Definition get_lrem : M Z := fun m => MOk (m_lrem m) m.
 
-(* readHeader; the header and count fields are written only when the whole header was
+(* readNextHeader; the header and count fields are written only when the whole header was
    read (after a failure nothing reads them again: Batch.err is set) *)
-Definition read_header : M unit :=
-  f <- top ;;
-  if 0 <? f_count f then ret tt else
+Definition read_next_header : M unit :=
   first <- lift (p_int 8) ;;
   length <- lift (p_int 4) ;;
   crc_or_epoch <- lift (p_int 4) ;;
@@ -200,8 +200,25 @@ Definition read_header : M unit :=
     bseq <- lift (p_int 4) ;;
     count <- lift (p_int 4) ;;
     upd_top (fun f => mkFrame (f_in f) (f_remain f) (f_base f) count (mkHdr first length 2 attr ts lod count)) ;;;
-    set_lrem (length - 49)   (* int(r.header.length) - 49, computed in int *)
+    set_lrem (length - 49) ;;;   (* int(r.header.length) - 49, computed in int *)
+    (if count =? 0 then set_elast (wrap64 (first + lod)) else ret tt)
   else fail EBadMagic.
+
+(* readHeader: nothing while messages of the current set remain; otherwise read headers until
+   one is not a record-less v2 batch *)
+Fixpoint read_header_loop (fuel : nat) {struct fuel} : M unit :=
+  match fuel with
+  | O => fail EFuel
+  | S fuel' =>
+    read_next_header ;;;
+    f <- top ;;
+    if negb (h_magic (f_hdr f) =? 2) || negb (f_count f =? 0) then ret tt
+    else read_header_loop fuel'
+  end.
+
+Definition read_header (fuel : nat) : M unit :=
+  f <- top ;;
+  if 0 <? f_count f then ret tt else read_header_loop fuel.
 
 (* messagesHeader.compression: None = no codec *)
 Definition codec_of (h : hdr) : M (option Z) :=
@@ -279,7 +296,7 @@ Fixpoint read_v1 (fuel : nat) (min : Z) {struct fuel} : M (Z * Z * list N * list
     | f :: ps =>
       if f_remain f =? 0 then read_v1 fuel' min (set_stack m ps)
       else
-        (read_header ;;;
+        (read_header fuel' ;;;
          f1 <- top ;;
          let h := f_hdr f1 in
          c <- codec_of h ;;
@@ -324,8 +341,8 @@ Fixpoint read_rec_headers (n : nat) {struct n} : M (list (list N * list N)) :=
   end.
 
 (* readMessageV2: (offset, lastOffset, timestamp, key, value, headers) *)
-Definition read_v2 : M (Z * Z * Z * list N * list N * list (list N * list N)) :=
-  read_header ;;;
+Definition read_v2 (fuel : nat) : M (Z * Z * Z * list N * list N * list (list N * list N)) :=
+  read_header fuel ;;;
   f <- top ;;
   let h := f_hdr f in
   (if f_count f =? h_count h then
@@ -338,6 +355,7 @@ Definition read_v2 : M (Z * Z * Z * list N * list N * list (list N * list N)) :=
        else if batch_remain <? 0 then fail ENegBatch
        else
          d <- lift (p_decompress code batch_remain) ;;
+         set_lrem (len d) ;;;     (* the records are accounted for by their uncompressed size *)
          (fun m => match m_stack m with
                    | [] => MPanic
                    | p :: ps =>
@@ -374,14 +392,14 @@ Record msg := mkMsg {
 Definition msr_read (fuel : nat) (min : Z) : M (msg * Z) :=
   fun m =>
   if m_empty m then MErr ETimedOut m else
-  (read_header ;;;
+  (read_header fuel ;;;
    f <- top ;;
    let magic := h_magic (f_hdr f) in
    if (magic =? 0) || (magic =? 1) then
      r <- read_v1 fuel min ;;
      let '(o, ts, k, v) := r in ret (mkMsg o ts k v [], -1)
    else if magic =? 2 then
-     r <- read_v2 ;;
+     r <- read_v2 fuel ;;
      let '(o, lo, ts, k, v, hs) := r in ret (mkMsg o ts k v hs, lo)
    else fail EBadMagic) m.
 
@@ -410,7 +428,7 @@ Record batch := mkBatch {
   b_has_conn : bool;          (* batch.conn != nil *)
   b_conn_off : Z;             (* conn.offset while the batch is open *)
   b_off : Z;                  (* batch.offset *)
-  b_last : Z;                 (* batch.lastOffset (zero value 0!) *)
+  b_last : Z;                 (* batch.lastOffset (-1 until a message was read) *)
   b_err : option err;
   b_late : bool               (* time.Now().After(deadline) at the end of the batch *)
 }.
@@ -433,14 +451,18 @@ Definition batch_read1 (fuel : nat) (b : batch) : bres :=
     | Some m =>
       match msr_read fuel (b_off b) m with
       | MPanic => BPanic
-      | MOk (g, lo) m' => BMsg g (set_b b (Some m') (g_off g + 1) lo None)
+      | MOk (g, lo) m' =>
+        (* never backwards; past the batch's last offset once its last record was read *)
+        let off1 := if b_off b <=? g_off g then g_off g + 1 else b_off b in
+        let off2 := if (m_lrem m' =? 0) && (off1 <=? lo) then lo + 1 else off1 in
+        BMsg g (set_b b (Some m') off2 lo None)
       | MErr EShort m' =>
         match msr_discard m' with
         | Some e => BErr e (set_b b (Some m') (b_off b) (b_last b) (Some EIO))
         | None =>
           let e := if b_late b then ETimedOut else EEOF in
-          let off := if negb (b_late b) && (m_lrem m' =? 0) && negb (b_last b =? -1)
-                     then b_last b + 1 else b_off b in
+          let lo := if (m_lrem m' =? 0) && (m_elast m' <? b_last b) then b_last b else m_elast m' in
+          let off := if negb (b_late b) && (b_off b <=? lo) then lo + 1 else b_off b in
           BErr e (set_b b (Some m') off (b_last b) (Some e))
         end
       | MErr ERawEOF m' => BErr ERawEOF (set_b b (Some m') (b_off b) (b_last b) (Some EIO))
@@ -463,18 +485,18 @@ Fixpoint batch_read (fuel : nat) (b : batch) {struct fuel} : bres :=
 
 (* Conn.ReadBatchWith once the fetch response header was read without error *)
 Definition new_msr (i : list N) (remain : Z) : mres unit :=
-  read_header (mkMsr [mkFrame i remain 0 0 hdr0] false 0).
+  read_next_header (mkMsr [mkFrame i remain 0 0 hdr0] false 0 (-1)).
 
 Definition new_batch (offset hwm : Z) (i : list N) (remain : Z) (late : bool) : batch :=
-  if hwm =? offset then mkBatch (Some (mkMsr [] true 0)) true offset offset 0 None late
+  if hwm =? offset then mkBatch (Some (mkMsr [] true 0 0)) true offset offset (-1) None late
   else match new_msr i remain with
-       | MOk _ m => mkBatch (Some m) true offset offset 0 None late
+       | MOk _ m => mkBatch (Some m) true offset offset (-1) None late
        | MErr EShort m =>
          (* checkTimeoutErr, then dontExpectEOF turns io.EOF into io.ErrUnexpectedEOF *)
-         mkBatch (Some m) true offset offset 0 (Some (if late then ETimedOut else EIO)) late
-       | MErr ERawEOF m => mkBatch (Some m) true offset offset 0 (Some EIO) late
-       | MErr e m => mkBatch (Some m) true offset offset 0 (Some e) late
-       | MPanic => mkBatch None true offset offset 0 (Some EFuel) late
+         mkBatch (Some m) true offset offset (-1) (Some (if late then ETimedOut else EIO)) late
+       | MErr ERawEOF m => mkBatch (Some m) true offset offset (-1) (Some EIO) late
+       | MErr e m => mkBatch (Some m) true offset offset (-1) (Some e) late
+       | MPanic => mkBatch None true offset offset (-1) (Some EFuel) late
        end.
 
 (* read the batch to its end as reader.read does: messages, the final error, batch.offset
